@@ -19,10 +19,12 @@ from core import Rng, derive
 PROP = "C20"
 
 ELIGIBLE_NAMES = ["x.mmm", "y.mmm", "x.transpiled.mmm", "a b.mmm", "a.b.c.mmm", "é.mmm", ".x.mmm",
-                  "mmm.mmm", "x.ms.mmm", "X.mmm", "-x.mmm", "x y z.mmm"]
+                  "mmm.mmm", "x.ms.mmm", "X.mmm", "-x.mmm", "x y z.mmm",
+                  # names that are not valid UTF-8 (Latin-1 bytes; Python's surrogateescape spelling)
+                  "caf\udce9.mmm", "\udcff\udcfemod.mmm"]
 OTHER_NAMES = ["x.ms", "y.ms", "x.mmm.bak", ".mmm", "mmm", "x.MMM", "x.mmm~", "x.mmm ", "x.mmm.", "x.Mmm",
                "x.mmmm", "x.mm", "xmmm", "x mmm", "x.mmm.ms", "é.ms", "a b.ms", "x.", "mmm.ms", "x.mmmé",
-               "x..mmm.txt", "notes.txt", "Cargo.toml"]
+               "x..mmm.txt", "notes.txt", "Cargo.toml", "caf\udce9.ms"]
 KINDS = ["file", "file", "file", "file", "dir", "symlink_file", "symlink_dir", "dangling"]
 
 
@@ -40,6 +42,8 @@ def gen_entry(rng, depth, idx):
     e = {"name": name, "kind": kind}
     if kind == "file":
         e["content"] = "c%d-%s" % (idx, rng.hexbytes(rng.range(0, 6)))
+        if rng.chance(1, 4):
+            e["mode"] = rng.choice([0o444, 0o440, 0o600, 0o755])
     elif kind == "dir":
         e["children"] = []
         if depth < 2:
@@ -143,6 +147,18 @@ def gen_cases(tier, seed):
                 yield make_case("name%d" % i, "name_kind", copy.deepcopy(tree), [], spelling,
                                 {"seed": "11" * 16, "rules": []})
                 i += 1
+    # 2b. directories far larger than the property's 8 entries (the statement itself has no size limit)
+    for k in range(24 if quick else 240):
+        rng = Rng(derive(seed, PROP, "large", k))
+        nfiles = rng.choice([31, 32, 33, 34, 40, 64, 65, 100])
+        tree = []
+        for j in range(nfiles):
+            nm = rng.choice(["f%d.mmm", "g %d.mmm", "h%d.ms", "k%d.mmm.bak", "é%d.mmm"]) % j
+            tree.append({"name": nm, "kind": "file", "content": "L%d" % j})
+        tree.append({"name": "sub.mmm", "kind": "dir", "children": [{"name": "in.mmm", "kind": "file", "content": "x"}]})
+        batch = "benign" if k % 2 else "fault_free"
+        prng = Rng(derive(seed, PROP, "largeplan", k))
+        yield make_case("L%d" % k, batch, tree, [], "d", gen_plan(prng, batch, len(tree)))
     # 3. random trees x plans
     total = 12000 if quick else 120000
     for k in range(total):
@@ -169,6 +185,8 @@ def build_tree(root, entries, target_file, target_dir):
         if k == "file":
             with open(p, "w") as f:
                 f.write(e.get("content", ""))
+            if e.get("mode"):
+                os.chmod(p, e["mode"])
         elif k == "dir":
             os.mkdir(p)
             build_tree(p, e.get("children", []), target_file, target_dir)
@@ -186,13 +204,14 @@ def snapshot(root):
         for n in dirnames + filenames:
             p = os.path.join(dirpath, n)
             rel = os.path.relpath(p, root)
+            mode = "%o" % (os.lstat(p).st_mode & 0o7777)
             if os.path.islink(p):
                 snap[rel] = ("link", os.readlink(p))
             elif os.path.isdir(p):
-                snap[rel] = ("dir", "")
+                snap[rel] = ("dir", mode)
             else:
                 with open(p, "rb") as f:
-                    snap[rel] = ("file", hashlib.sha256(f.read()).hexdigest()[:12])
+                    snap[rel] = ("file", hashlib.sha256(f.read()).hexdigest()[:12] + " mode " + mode)
     return snap
 
 
@@ -203,6 +222,7 @@ def run_case(case):
     os.makedirs(os.path.join(root, "targets", "tdir"))
     with open(os.path.join(root, "targets", "tfile.mmm"), "w") as f:
         f.write("link target file")
+    os.chmod(os.path.join(root, "targets", "tfile.mmm"), 0o444)      # a write-protected link target
     with open(os.path.join(root, "targets", "tdir", "inside.mmm"), "w") as f:
         f.write("inside link target dir")
     tfile = os.path.join(root, "targets", "tfile.mmm")
